@@ -148,7 +148,10 @@ class Arbiter:
                 fds = range(systemd.SD_LISTEN_FDS_START,
                             systemd.SD_LISTEN_FDS_START + listen_fds)
 
-            elif self.master_pid:
+            if self.master_pid and 'GUNICORN_FD' in os.environ:
+                # a re-executed master inherits the listeners under the
+                # numbers they have in the old master; only systemd itself
+                # passes them as SD_LISTEN_FDS_START, +1, ...
                 fds = []
                 for fd in os.environ.pop('GUNICORN_FD').split(','):
                     # the list is empty when the old master holds no
@@ -438,9 +441,8 @@ class Arbiter:
             if self.systemd:
                 environ['LISTEN_PID'] = str(os.getpid())
                 environ['LISTEN_FDS'] = str(len(self.LISTENERS))
-            else:
-                environ['GUNICORN_FD'] = ','.join(
-                    str(lnr.fileno()) for lnr in self.LISTENERS)
+            environ['GUNICORN_FD'] = ','.join(
+                str(lnr.fileno()) for lnr in self.LISTENERS)
 
             os.chdir(self.START_CTX['cwd'])
 
